@@ -172,3 +172,9 @@ mod tests {
         );
     }
 }
+
+/// Verification hook (guarded): file name -> blk index as `from_path` computes it.
+#[cfg(rusty_blockparser_verif)]
+pub fn verif_parse_blk_index(file_name: &str) -> Option<u64> {
+    BlkFile::parse_blk_index(file_name, "blk", ".dat")
+}
